@@ -277,4 +277,12 @@ def strategy(tier):
     return gen.scenario(CFG, flags={}, max_choices=60, p_fail=0.05)
 
 
-PARTS = [Part("provenance", run, strategy, {"quick": 2400, "thorough": 60000}, rule=RULE)]
+def strat_directed(tier):
+    # branches of different length publish the same variable independently: publish order != arrival order
+    return gen.directed_scenario(gen.fork_join_ir(), max_choices=60, p_fail=0.05)
+
+
+PARTS = [
+    Part("provenance", run, strategy, {"quick": 2000, "thorough": 60000}, rule=RULE),
+    Part("fork-join", run, strat_directed, {"quick": 1200, "thorough": 30000}, rule="directed fork-join definitions whose branches publish the same variables independently"),
+]
